@@ -320,13 +320,14 @@ def cb(b):
     return "true" if b else "false"
 
 
-def render_event(e):
+def render_event(e, qmap):
     k = e[0]
     if k == "reply":
+        q = qmap.get(e[1], 999)
         if e[2] == "ok":
             rid = e[3] if e[3] >= 0 else 999
-            return "EReply %d (ROk %d %s)" % (e[1], rid, cb(e[4]))
-        return "EReply %d %s" % (e[1], "RBusy" if e[2] == "busy" else "RErr")
+            return "EReply %d (ROk %d %s)" % (q, rid, cb(e[4]))
+        return "EReply %d %s" % (q, "RBusy" if e[2] == "busy" else "RErr")
     if k == "newserver":
         return "ENew %d %s" % (e[1], "(Some %d)" % e[2] if e[2] >= 0 else "None")
     if k == "wait":
@@ -358,21 +359,24 @@ def render_proj(s):
 
 
 def render_trace(case, o):
+    """the model numbers requests in the order they are submitted; an explicit (shrunk) schedule may submit any subset"""
     steps = []
+    qmap = {}
     for s in o["steps"][1:]:
         c = s["c"]
         a = c["a"]
         if a == "submit":
+            qmap[c.get("q", 0)] = len(qmap)
             lab = "(OEnv (LSubmit %s))" % render_spec(case, c.get("q", 0))
         elif a == "cancel":
-            lab = "(OEnv (LCancel %d))" % c.get("q", 0)
+            lab = "(OEnv (LCancel %d))" % qmap.get(c.get("q", 0), 999)
         elif a == "expire":
             lab = "(OEnv (LExpire %d))" % c.get("m", 0)
         elif a == "tick":
             lab = "(OEnv (LTick %s))" % cZ(c["ms"])
         else:
             lab = "(ORun %d)" % c.get("i", 0)
-        evs = [x for x in (render_event(e) for e in s["ev"]) if x]
+        evs = [x for x in (render_event(e, qmap) for e in s["ev"]) if x]
         steps.append("mkO %s %s %s" % (lab, vlib.cq_list(evs, "event"), render_proj(s)))
     return vlib.cq_list(steps, "ostep")
 
